@@ -8,6 +8,7 @@ import AkVerif.Lemmas.GhistWindow
 import AkVerif.Lemmas.GhistPlugTotal
 import AkVerif.Lemmas.GhistInclSpec
 import AkVerif.Lemmas.GhistExample
+import AkVerif.Lemmas.GhistPending
 import AkVerif.Model.GhistTags
 /-!
 # C07 — component builds are reported at the first parent build that ships them
@@ -353,6 +354,48 @@ theorem included_first_git_partial (bd : RB Bumps) (hbd : bd ∈ rb.rbuilds) (e 
 
 end
 
+/-! ## pending bumps of the "not merged" pseudo build -/
+
+/-- **C07.pending_from_latest** — the pending bumps of the "not merged" pseudo build `fake` of a branch are computed from
+the bumps of the *last* build `lb` of the branch: the build created last by the DFS (greatest iid), which is a git
+ancestor of no other build of the branch — whatever the build numbers are (`RB.bn` does not occur: a branch that starts
+with builds numbered from a VERSION file above the release line's, or a counter that was reset, changes nothing).  That
+build is also the only parent build of the pseudo build.  A branch without builds has a pseudo build without bumps.
+(Commit times inside the cut-off window `hW`, as for the other theorems of this file.) -/
+theorem pending_from_latest (comps : List (Nat × Graph Bumps)) (h : Hist Pins) (hT : h.Topo) (hW : h.InWindow)
+    (g : Graph Bumps) (hgw : rgraph h (mkPlug comps) = .ok g) :
+    ∀ rb ∈ g.all, ∀ fake ∈ rb.rbuilds, fake.rcommit = none →
+      (∃ lb ∈ rb.rbuilds, lb.rcommit = some lb.iid ∧
+        (∀ x ∈ rb.rbuilds, x.rcommit ≠ none → x.iid ≤ lb.iid) ∧
+        (∀ x ∈ rb.rbuilds, ∀ ex el, BuildAt g.rcs x ex → BuildAt g.rcs lb el → Anc h el ex → ex = el) ∧
+        fake.parents = [lb.iid] ∧
+        pendingBumps (sortBy (fun a b => a.1 < b.1) (relevantComps comps)) lb.bumps = .ok fake.bumps) ∨
+      ((∀ x ∈ rb.rbuilds, x.rcommit = none) ∧ fake.parents = [] ∧ fake.bumps = []) := by
+  have hg := rgraph_nw hT hW hgw
+  intro rb hrb fake hfk hnone
+  rcases rgraph_pending hT hg rb hrb fake hfk hnone with ⟨lb, hlb, h1, h2, h3, h4⟩ | h5
+  · left
+    refine ⟨lb, hlb, h1, h2, ?_, h3, h4⟩
+    rintro x hx ex el ⟨hxn, rcx, hrx, hcx⟩ ⟨_, rcl, hrl, hcl⟩ hanc
+    have hle := rgraph_iid_mono hT hg lb.iid x.iid rcl rcx hrl hrx (by rw [hcl, hcx]; exact hanc)
+    have hge := h2 x hx (by rw [hxn]; simp)
+    have heq : x.iid = lb.iid := by omega
+    rw [heq, hrl] at hrx
+    cases hrx
+    rw [← hcx, ← hcl]
+  · right; exact h5
+
+/-- **C07.pending_bump_from_pin** — every pending bump `pb` computed from the bumps of a build starts from the version
+that build pins (`to_buildnum` of its bump of the component, which names the reported component build `incl`) and
+leads to the latest build `lat` of the component branch that holds `incl` (the component's own pseudo build counts);
+it is recorded only when `lat` is another build than `incl`, i.e. when something is pending. -/
+theorem pending_bump_from_pin (cvm : List (Nat × Graph Bumps)) (bumps r : Bumps) (hr : pendingBumps cvm bumps = .ok r)
+    (comp : Nat) (pb : Bump) (hm : (comp, pb) ∈ r) :
+    ∃ pbump incl gC cb e lat, (comp, pbump) ∈ bumps ∧ pbump.toRb = some incl ∧ cvm.lookup comp = some gC ∧
+      gC.findBuild incl = some cb ∧ gC.bnMapAll.lookup cb.bn = some e ∧ gC.latestOf e.1 = some lat ∧
+      pb = ⟨[pbump.toBn], lat.bn, [incl], some lat.iid⟩ ∧ lat.iid ≠ incl :=
+  pendingBumps_mem cvm bumps r hr comp pb hm
+
 /-! ## totality of the multi-repository analysis -/
 
 /-- **C07.analysis_total** — `ReposCollection.make_reports_data` either raises the `ValueError` of a dependency cycle or
@@ -524,5 +567,57 @@ example (bd : RB Bumps) (hbd : bd ∈ rbApp.rbuilds) (e : Nat) (hbe : BuildAt gA
 component builds that are new in its version -/
 example : (rbApp.rbuilds.map fun b => (b.rcommit, b.bn, (regsOfBuild 0 rbApp.name 2 gLib b).toOption.map (·.map (·.iid)))) =
     [(some 0, ⟨5, 1, 1, 1⟩, some [0, 2]), (some 1, ⟨5, 1, 2, 2⟩, some [1, 3])] := by decide +kernel
+
+/-- **non-vacuity** of `included_first_git_partial`: all its hypotheses hold on the diamond example — the parent's
+eligible commits 0 and 1 pin the build tags of the component commits 1 and 3 of the component's release branch
+(`PinsAt`, `hpins`), the pinned commit never goes back (`hmonoC`: 1 is a git ancestor of 3), the component's build
+numbers are unique (`TagsUnique`), the times are inside the windows — so the theorem applies to every reported build of
+the parent branch and every reported build of the component branch -/
+example (bd : RB Bumps) (hbd : bd ∈ rbApp.rbuilds) (e : Nat) (hbe : BuildAt gApp.rcs bd e) (hbn : bd.bn ≠ fakeNM)
+    (bx : RB Bumps) (hbx : bx ∈ rbLib.rbuilds) (ex : Nat) (hex : BuildAt gLib.rcs bx ex)
+    (l : List Reg) (hl : regsOfBuild 0 rbApp.name 2 gLib bd = .ok l) :
+    (⟨2, bx.iid, 0, rbApp.name, bd.bn⟩ : Reg) ∈ l ↔
+      (∃ cv, PinsAt exApp exLib 2 ((branchesOf exLib).take 0) bLib e cv ∧ Anc exLib ex cv) ∧
+      ∀ e', SpecBuild exApp ((branchesOf exApp).take 0) bApp e' → e' ≠ e → Anc exApp e' e →
+        ∀ cv', PinsAt exApp exLib 2 ((branchesOf exLib).take 0) bLib e' cv' → ¬ Anc exLib ex cv' := by
+  refine included_first_git_partial [(2, gLib)] exApp exApp_topo exApp_window exApp_compWindow gApp gApp_ok 0 bApp rbApp
+    bApp_ok rbApp_ok 2 gLib (by intro g' hg'; simpa using hg') (by simp) exLib exLib_topo exLib_tagsUnique (mkPlug [])
+    exLib_window gLib_ok gLib_len 0 bLib rbLib bLib_ok rbLib_ok ?_ ?_ bd hbd e hbe hbn bx hbx ex hex 0 l hl
+  · intro e' hs
+    rcases specBuild_le hs with rfl | rfl
+    · exact Or.inl ⟨1, pinsAt0⟩
+    · exact Or.inl ⟨3, pinsAt1⟩
+  · intro e1 e2 hs1 hs2 hanc cv1 hp1 _
+    have hle := hanc.le exApp_topo
+    rcases specBuild_le hs1 with rfl | rfl <;> rcases specBuild_le hs2 with rfl | rfl
+    · rw [pinsAt0_eq hp1]; exact ⟨1, pinsAt0, .refl 1⟩
+    · rw [pinsAt0_eq hp1]; exact ⟨3, pinsAt1, anc13⟩
+    · omega
+    · rw [pinsAt1_eq hp1]; exact ⟨3, pinsAt1, .refl 3⟩
+
+/-- … and the component branch of that example has the four reported builds the theorem speaks about, at the component
+commits 0, 2, 1, 3 (in DFS order) -/
+example : rbLib.rbuilds.map (fun b => (b.iid, b.rcommit, b.bn)) =
+    [(0, some 0, ⟨10, 20, 1, 1⟩), (1, some 1, ⟨10, 20, 3, 3⟩), (2, some 2, ⟨10, 20, 2, 2⟩), (3, some 3, ⟨10, 20, 4, 4⟩)] := by
+  decide +kernel
+
+/-- **non-vacuity** of `pending_from_latest` / `pending_bump_from_pin`: a parent branch whose first build was made by
+the master job (60.2.5, numbered from the VERSION file) and whose second build is 5.1.1 — the build numbers go DOWN along
+the history; the second build pins 10.20.2 while the component has newer reported builds.  The pseudo build has the
+build with the greatest iid (5.1.1, not the one with the greatest number) as its parent, and its pending bump leads from
+10.20.2 to the component's latest build 10.20.4. -/
+example : (rgraph (⟨[⟨[], [⟨60, 2, 5, 5⟩], false, [(2, (10, 20, 1))], 0⟩, ⟨[0], [⟨5, 1, 1, 1⟩], false, [(2, (10, 20, 2))], 0⟩],
+      "origin".toList, [("origin/release/5.1".toList, 1)]⟩ : Hist Pins) (mkPlug [(2, gLib)])).map
+    (fun g => g.all.flatMap fun rb => rb.rbuilds.map fun b => (b.iid, b.rcommit, b.bn, b.parents)) =
+    .ok [(0, some 0, ⟨60, 2, 5, 5⟩, []), (1, some 1, ⟨5, 1, 1, 1⟩, [0]),
+         (1000000000, none, ⟨9999, 9999, 9999, 9999⟩, [1])] := by
+  decide +kernel
+
+example : (rgraph (⟨[⟨[], [⟨60, 2, 5, 5⟩], false, [(2, (10, 20, 1))], 0⟩, ⟨[0], [⟨5, 1, 1, 1⟩], false, [(2, (10, 20, 2))], 0⟩],
+      "origin".toList, [("origin/release/5.1".toList, 1)]⟩ : Hist Pins) (mkPlug [(2, gLib)])).map
+    (fun g => g.all.flatMap fun rb => rb.rbuilds.map fun b => (b.iid, b.bumps.map fun cb => (cb.2.fromBns, cb.2.toBn))) =
+    .ok [(0, [([], ⟨10, 20, 1, 1⟩)]), (1, [([⟨10, 20, 1, 1⟩], ⟨10, 20, 2, 2⟩)]),
+         (1000000000, [([⟨10, 20, 2, 2⟩], ⟨10, 20, 4, 4⟩)])] := by
+  decide +kernel
 
 end C07
